@@ -32,6 +32,16 @@ CLAIMED = {
             "TLC checks exhaustively on a finite algebra (2-bit blocks, all 24 permutation keys, all IVs, all messages of 1..2 (3 in thorough) blocks, both directions) that the block loop with its registers modelled as aliasing locations computes exactly the IGE definition, that decryption inverts encryption and that the caller's input is never written; the same ~15k behaviours are stepped through the real block loop with the permutation as cipher (hook), and the term instance of the same definition (real AES), the temp-key derivation for nonces with leading zero bytes, the wrapper for every payload length in both directions and the length validation are checked against the real functions with seeded inputs.",
             "AES block and SHA-1 trusted (Go standard library); the toy instance covers algebra and aliasing, the term instance covers layout/width/padding with real primitives",
             "5 C05"),
+    "C03": ("model_checking",
+            "TLA+ specs (Envelope.tla parametric; EnvelopeToy.tla symbolic-bytes instance model-checked; EnvelopeTerm.tla term instance) with TLC; term cases replayed into internal/mtproto/messages",
+            "TLC checks on a symbolic-bytes instance (free hash / ideal cipher) that every sealed packet opens to exactly its fields under its own direction's key schedule and has the stated length; the same layout definition, instantiated as terms, is evaluated by TLC per case and interpreted by the harness with real SHA-1/AES: the real Serialize output is opened the way a conformant server does (key id, msg_key over header+body, key/IV at offset 0, fewer than 16 padding bytes, ack bit), and packets sealed from the specification for the server-to-client direction (offset 8) must come out of DeserializeEncrypted as exactly their fields - every body-length residue, both ack settings, extreme field values.",
+            "SHA-1/AES trusted; padding content free; harness IGE primitive cross-checked against the unfolded definition in the C05 run",
+            "5 C03"),
+    "C04": ("model_checking",
+            "TLA+ receive machine (EnvelopeToy.tla) model-checked with TLC over mutation classes; mutation cases (EnvelopeTerm.tla) replayed into DeserializeEncrypted with the specification's Accept evaluated on the mutated bytes",
+            "TLC checks that the receive machine, shaped like DeserializeEncrypted, refuses every mutated packet (bit flips per region, truncations, re-keying, garbage, wrong direction, wrong parity, inconsistent declared lengths) unless it is a consistent re-sealing by the key holder, and never reaches a panic state (LengthGuardInverted alone does). The harness builds real packets from the specification's layout, applies each mutation class at seeded positions (every bit in thorough) and every declared length in the property's set, evaluates the five-check Accept on the actual bytes and requires DeserializeEncrypted to agree: error for refused, identical fields for accepted, never a panic.",
+            "SHA-1/AES trusted; verdict for a flipped bit is computed (msg_key recomputation), not assumed; client-level behaviour on such packets belongs to the session-engine harness",
+            "5 C04"),
 }
 
 NOT_YET = {}
